@@ -52,8 +52,9 @@ def run():
     wd = os.path.join(vlib.WORK, 'c16')
     shutil.rmtree(wd, ignore_errors=True)
     os.makedirs(wd)
+    ck.sensitivity('RxProt', 'MCProt_retry.cfg', 'a refused RW->RX protection change is retried with R+W+X')
     r = vlib.tlc('RxProt', 'MCProt.cfg', workers=4, timeout=600)
-    ck.add_model('MCProt', r, '2 VMs (secure/non-secure x light/full) + 1 JIT cache, every history of create/hash/set_cache/destroy/alloc/init/init_dataset/release, one TLC state per protection request')
+    ck.add_model('MCProt', r, '2 VMs (secure/non-secure x light/full) + 1 JIT cache, every history of create/hash/set_cache/destroy/alloc/init/init_dataset/release, one TLC state per protection request; any protection change may be refused by the operating system (the call ends there)')
     if not r['ok']:
         ck.violation('model:RxProt', 'protection model violates NoWX/NoFault', vlib.tlc_error_summary(r['out'], 50))
     # histories: TLC-generated API behaviours (light VMs) + directed ones, all JIT VMs secure, all caches JIT
